@@ -97,9 +97,19 @@ template <class C> void Exec<C>::exec_parse(int i, const Op& op, OpOut& o) {
 
     for (int attempt = 0; attempt < 2; attempt++) {
         FaultPlan fp = attempt == 0 ? fault_of(op) : FaultPlan();
-        int tid = make_text(op.text, op.window, op.placement, op.trail, need_nul);
-        const C* first = texts[(size_t)tid].base; const C* afterLast = first + texts[(size_t)tid].win;
-        event("op %d parse u%d \"%s\" entry=%d mgr=%d win=%d place=%d", i, d, hexesc(op.text).c_str(), entry, op.mgr, texts[(size_t)tid].win, op.placement);
+        int tid; const C* first; const C* afterLast;
+        if (op.c >= 0 && op.c < i && op_tid[(size_t)op.c] >= 0 && texts[(size_t)op_tid[(size_t)op.c]].alive && !need_nul) {
+            // parse a prefix range of the very buffer an earlier parse used (same first pointer, own afterLast)
+            tid = op_tid[(size_t)op.c];
+            first = texts[(size_t)tid].base;
+            int w = (op.window < 0 || op.window > texts[(size_t)tid].win) ? texts[(size_t)tid].win : op.window;
+            afterLast = first + w;
+        } else {
+            tid = make_text(op.text, op.window, op.placement, op.trail, need_nul);
+            first = texts[(size_t)tid].base; afterLast = first + texts[(size_t)tid].win;
+        }
+        op_tid[(size_t)i] = tid;
+        event("op %d parse u%d \"%s\" entry=%d mgr=%d win=%d place=%d share=%d", i, d, hexesc(op.text).c_str(), entry, op.mgr, (int)(afterLast - first), op.placement, op.c);
         typename A::State st; memset(&st, 0x5a, sizeof st); st.uri = sl.u;
         const C* errPos = (const C*)(uintptr_t)0x1111;
         volatile int rc = -999;
